@@ -106,3 +106,5 @@ def run(P, R, tier):
     for c in [x for x in walk_no_nested(g.node) if isinstance(x, ast.Call) and src(x.func).split(".")[-1] == "argmin"]:
         ax = next((const_value(k.value) for k in c.keywords if k.arg == "axis"), const_value(c.args[1]) if len(c.args) > 1 else None)
         R.check(ax == 0, "SHAPE.argmin", g.key, src(c), "argmin over the cluster axis of a (clusters, samples) array", f"argmin is taken over axis {ax}: with distances of shape (clusters, samples) this picks the nearest *sample* of each cluster, not the nearest centroid of each sample", c.lineno)
+    from ..engines import dtype as _dt
+    _dt.check_function(P, R, "kmeans:e_step", raw_params=("data",))
